@@ -392,7 +392,7 @@ impl Machine {
         match x {
             Sx::Int(i) => RVal::Num(refnum::int(*i as i128)),
             Sx::Rat(a, b) => RVal::Num(refnum::exact(*a as i128, *b as i128)),
-            Sx::Real(t) => RVal::Num(RNum::Inexact(t.parse::<f64>().unwrap() as f32)),
+            Sx::Real(t) => RVal::Num(RNum::Inexact(t.parse::<f32>().unwrap())),
             Sx::Bool(b) => RVal::Bool(*b),
             Sx::Char(c) => RVal::Char(*c),
             Sx::Str(s) => RVal::Str(Rc::from(s.as_str())),
